@@ -621,7 +621,7 @@ fn emit_expr(rng: &mut Rng, ev_names: &[&str], type_names: &[String], locals_all
         7 if !locals.is_empty() => json!({"k": "mcall", "recv": {"k": "path", "segs": [rng.pick(locals).0]}, "method": "clone", "args": []}),
         8 => json!({"k": "tuple", "es": []}),
         9 if adversarial => json!({"k": "call", "func": {"k": "path", "segs": ["compute"]}, "args": []}),
-        10 if adversarial => json!({"k": "path", "segs": ["unknown_var"]}),
+        10 if adversarial => json!({"k": "path", "segs": [*rng.pick(&["unknown_var", "data", "local_v", "msg_v", "payload0", "id0"])]}),
         11 if adversarial && !type_names.is_empty() => json!({"k": "path", "segs": ["models", rng.pick(type_names), "Active"]}),
         _ => json!({"k": "lit", "text": "\"x\"", "lit": "str"}),
     };
@@ -675,15 +675,15 @@ fn wrap_emit(rng: &mut Rng, e: Value) -> Value {
 
 /// one random project; `adversarial` lifts the SafeProject restrictions
 pub fn random_project(rng: &mut Rng, nfiles: usize, adversarial: bool, externs: &[&str]) -> Value {
-    let dirs = ["", "commands/", "models/", "a/b/c/", "target_x/", "x.target/", "legacy.rs/", "commands/"];
+    let dirs = ["", "commands/", "models/", "a/b/c/", "target_x/", "x.target/", "legacy.rs/", "commands/", "src/", "src/commands/", "crates/shared/src/"];
     let mut type_names: Vec<String> = Vec::new();
     let mut items_per_file: Vec<Vec<Value>> = vec![Vec::new(); nfiles];
     let ntypes = 1 + rng.below(3 + nfiles);
     let field_names = ["id", "user_name", "created_at", "count", "items", "meta_data", "is_active", "r_type"];
     for t in 0..ntypes {
         // stems include names ending in `Schema` / `Params`-like words and names of well-known std types used as *user* types
-        let name = if rng.chance(1, 8) {
-            (*rng.pick(&["TableSchema", "Path", "PathBuf", "Duration", "Value", "Params", "Channel0", "Result0", "OptionLike", "設定", "用户", "Ünit", "Ωmega"])).to_string() + if t % 2 == 0 { "" } else { "X" }
+        let name = if rng.chance(1, 6) {
+            (*rng.pick(&["TableSchema", "Path", "PathBuf", "Duration", "Value", "Params", "Channel0", "Result0", "OptionLike", "設定", "用户", "Ünit", "Ωmega", "MapRegion", "RecordingInfo", "Mapper", "Records", "PromiseLike", "ArrayBuf"])).to_string() + if t % 2 == 0 { "" } else { "X" }
         } else {
             format!("{}{}", rng.pick(&["User", "Order", "Item", "Config", "Event", "Status", "Mode", "DbConfig", "AppUser", "SubItem"]), t)
         };
@@ -746,7 +746,7 @@ pub fn random_project(rng: &mut Rng, nfiles: usize, adversarial: bool, externs: 
                         }
                     }
                     1 => fa.push(attr("serde(skip)")),
-                    2 => fa.push(attr("serde(default)")),
+                    2 => fa.push(attr(*rng.pick(&["serde(default)", "serde(flatten)", "serde(flatten, default)", "serde(borrow)", "serde(with = \"serde_bytes\")"]))),
                     3 => fa.push(attr("serde(skip_serializing_if = \"Option::is_none\")")),
                     4 => fa.push(attr("validate(length(min = 1, max = 64))")),
                     5 => fa.push(attr("validate(range(min = 0, max = 100), email)")),
@@ -789,6 +789,11 @@ pub fn random_project(rng: &mut Rng, nfiles: usize, adversarial: bool, externs: 
     // names of types that are *not* defined in the project (they are only legal input when the configuration maps them)
     for e in externs {
         type_names.push(e.to_string());
+        if *e == "DocId" {
+            // … one of them is a type alias in the project: the mapping is keyed by the name as written
+            let f = rng.below(nfiles);
+            items_per_file[f].push(json!({"k": "other", "text": "pub type DocId = u64;\npub type Rows<T> = Vec<T>;"}));
+        }
     }
     let ev_names: Vec<&str> = if adversarial {
         vec!["user-updated", "sync_done", "task:progress", "a/b", "x", "user-updated", "Mixed-Case_1"]
@@ -796,8 +801,12 @@ pub fn random_project(rng: &mut Rng, nfiles: usize, adversarial: bool, externs: 
         vec!["user-updated", "sync-done", "task-progress", "download_finished", "x"]
     };
     let ncmds = 1 + rng.below(3 + nfiles);
+    let mut cmd_names_so_far: Vec<String> = Vec::new();
     for c in 0..ncmds {
-        let name = if adversarial && rng.chance(1, 10) {
+        let name = if adversarial && c > 0 && rng.chance(1, 8) {
+            // a second command whose name differs from the first only in a way the TypeScript name forgets
+            format!("{}_", cmd_names_so_far[0])
+        } else if adversarial && rng.chance(1, 10) {
             rng.pick(&["class", "delete", "new", "r#type", "_1st", "typeof"]).to_string()
         } else {
             format!("{}_{}{}", rng.pick(&["get", "set", "load", "save", "list"]), rng.pick(&["user", "item", "config", "report"]), c)
@@ -806,6 +815,11 @@ pub fn random_project(rng: &mut Rng, nfiles: usize, adversarial: bool, externs: 
         let mut locals: Vec<(String, String)> = Vec::new();
         for k in 0..rng.below(4) {
             let pname = format!("{}{}", rng.pick(&["id", "user_name", "filter", "payload", "_opt", "max__count", "größe", "名前_x", "élan_vital"]), k);
+            // names that are reserved words of JavaScript and plain identifiers of Rust
+            let pname = if rng.chance(1, 10) { rng.pick(&["package", "public", "default", "new", "export", "import", "delete", "function", "class", "var"]).to_string() } else { pname };
+            if params.iter().any(|q: &Value| s(q, "pat").trim_start_matches("mut ") == pname) {
+                continue;
+            }
             let ty = any_ty(rng, &type_names, 2, adversarial);
             let mut pa = Vec::new();
             if rng.chance(1, 10) {
@@ -842,12 +856,26 @@ pub fn random_project(rng: &mut Rng, nfiles: usize, adversarial: bool, externs: 
         if adversarial && rng.chance(1, 10) {
             params.push(raw_param("(a, b)", "(i32, i32)", "pattern"));
         }
+        if adversarial && rng.chance(1, 8) {
+            // a destructured parameter *before* the named ones (the symbol table must still see those that follow)
+            params.insert(0, raw_param("(done, total)", "(u32, u32)", "pattern"));
+        }
+        if rng.chance(1, 8) {
+            params.insert(0, raw_param("_", "tauri::Window", "injected"));
+        }
         let ret = match rng.below(5) {
             0 => Value::Null,
             1 => ty_json(&if adversarial { any_ty(rng, &type_names, 2, true) } else { safe_ret(rng, &type_names) }),
             _ => {
                 let ok = if adversarial { any_ty(rng, &type_names, 2, true) } else { safe_ret(rng, &type_names) };
-                ty_json(&RTy::Res2(Box::new(ok), Box::new(RTy::Prim("String".into()))))
+                // the error arm never reaches the bindings, whatever it looks like (a tuple, a map, a named type)
+                let err = match rng.below(6) {
+                    0 => RTy::Tup(vec![RTy::Prim("u16".into()), RTy::Prim("String".into())]),
+                    1 => RTy::HMap(Box::new(RTy::Prim("String".into())), Box::new(RTy::Prim("String".into()))),
+                    2 => RTy::Vec(Box::new(RTy::Tup(vec![RTy::Prim("u8".into()), RTy::Prim("u8".into())]))),
+                    _ => RTy::Prim("String".into()),
+                };
+                ty_json(&RTy::Res2(Box::new(ok), Box::new(err)))
             }
         };
         let mut body: Vec<Value> = Vec::new();
@@ -933,6 +961,7 @@ pub fn random_project(rng: &mut Rng, nfiles: usize, adversarial: bool, externs: 
             attrs.insert(0, attr("doc = \" documented command\""));
         }
         let f = rng.below(nfiles);
+        cmd_names_so_far.push(name.clone());
         items_per_file[f].push(json!({"k": "fn", "name": name, "attrs": attrs, "vis": rng.pick(&["pub", "", "pub(crate)"]),
             "async": rng.chance(1, 2), "params": params, "ret": ret, "body": body}));
     }
@@ -1046,7 +1075,10 @@ pub fn random_project(rng: &mut Rng, nfiles: usize, adversarial: bool, externs: 
     files.push(json!({"path": ".git/hooks/x.rs", "items": [{"k": "fn", "name": "hidden_in_git", "attrs": [attr("tauri::command")], "vis": "pub", "async": false, "params": [], "ret": null, "body": []}]}));
     files.push(json!({"path": "notes.txt", "raw": "#[tauri::command]\nfn not_rust() {}\n"}));
     if rng.chance(1, 2) {
-        files.push(json!({"path": "broken.rs", "raw": "#[tauri::command]\npub fn broken( {\n"}));
+        // text that does not parse, also with multi-byte characters in front of the error on the same line
+        let raw = *rng.pick(&["#[tauri::command]\npub fn broken( {\n", "#[tauri::command]\npub fn t() { let title = \"設定\" \"概要\"; }\n",
+            "pub struct Ä { ß: \"é\" \"è\" }\n", "/* 未完"]);
+        files.push(json!({"path": "broken.rs", "raw": raw}));
     }
     if rng.chance(1, 3) {
         files.push(json!({"path": "sub/empty.rs", "raw": ""}));
@@ -1065,7 +1097,7 @@ pub fn run(out: &mut crate::out::Out, tier: &str, rng: &mut Rng) {
     for i in 0..n {
         let nfiles = 1 + rng.below(5);
         let adversarial = i % 3 == 2;
-        let externs: &[&str] = if i % 5 == 4 { &["PathBuf", "Uuid"] } else { &[] };
+        let externs: &[&str] = if i % 5 == 4 { &["PathBuf", "Uuid", "DocId"] } else { &[] };
         let p = random_project(rng, nfiles, adversarial, externs);
         for mode in ["none", "zod"] {
             let cfg = match i % 5 {
@@ -1073,7 +1105,7 @@ pub fn run(out: &mut crate::out::Out, tier: &str, rng: &mut Rng) {
                 1 => json!({"mode": mode, "mappings": {"User0": "string"}}),
                 2 => json!({"mode": mode, "param_case": "snake_case"}),
                 3 => json!({"mode": mode, "field_case": "camelCase"}),
-                _ => json!({"mode": mode, "mappings": {"PathBuf": "string", "Item1": "number", "Uuid": "string"}}),
+                _ => json!({"mode": mode, "mappings": {"PathBuf": "string", "Item1": "number", "Uuid": "string", "DocId": "string"}}),
             };
             out.case("project", json!({"project": p, "config": cfg}), json!({"gen": if adversarial { "adv" } else { "safe" }, "nfiles": nfiles}));
         }
